@@ -1,5 +1,432 @@
 package main
 
-func cmdCheck(args []string) int    { return 2 }
-func cmdReplay(args []string) int   { return 2 }
+// pvc check <id>: decide one property on /repo's current tree.
+
+import (
+	"encoding/json"
+	"flag"
+	"fmt"
+	"os"
+	"path/filepath"
+	"sort"
+	"strconv"
+	"strings"
+	"time"
+)
+
+type PropCfg struct {
+	Patterns    []string `json:"patterns"`
+	Funcs       []string `json:"funcs"`
+	Assumptions []string `json:"assumptions"`
+	Trusted     []string `json:"trusted_base"`
+	Note        string   `json:"note"`
+	Ground      []string `json:"ground"` // names of built-in ground checks
+	Exec        string   `json:"exec"`   // name of a built-in executable (bounded) check
+}
+
+type KnownFinding struct {
+	Property   string `json:"property"`
+	Obligation string `json:"obligation"`
+	What       string `json:"what"`
+	Status     string `json:"status"` // "open" or "fixed: <commit>"
+}
+
+type oblReport struct {
+	Name   string  `json:"name"`
+	Kind   string  `json:"kind"`
+	Status string  `json:"status"`
+	Solver string  `json:"solver,omitempty"`
+	Secs   float64 `json:"secs"`
+	Size   int     `json:"smt_bytes"`
+	Src    string  `json:"clause,omitempty"`
+	Pos    string  `json:"pos,omitempty"`
+}
+
+func fullKey(key string) string {
+	switch {
+	case strings.HasPrefix(key, "(*"):
+		return "(*" + repoPrefix + "/" + key[2:]
+	case strings.HasPrefix(key, "("):
+		return "(" + repoPrefix + "/" + key[1:]
+	case strings.HasPrefix(key, "lemma:"):
+		return key
+	}
+	return repoPrefix + "/" + key
+}
+
+func loadProps() (map[string]*PropCfg, error) {
+	data, err := os.ReadFile(filepath.Join(verifDir, "props.json"))
+	if err != nil {
+		return nil, err
+	}
+	m := map[string]*PropCfg{}
+	if err := json.Unmarshal(data, &m); err != nil {
+		return nil, err
+	}
+	return m, nil
+}
+
+func loadLedger(id string) map[string]bool {
+	m := map[string]bool{}
+	data, err := os.ReadFile(filepath.Join(verifDir, "ledger", id+".json"))
+	if err != nil {
+		return m
+	}
+	var names []string
+	json.Unmarshal(data, &names)
+	for _, n := range names {
+		m[n] = true
+	}
+	return m
+}
+
+func loadKnown() []KnownFinding {
+	var k []KnownFinding
+	data, err := os.ReadFile(filepath.Join(verifDir, "known_findings.json"))
+	if err == nil {
+		json.Unmarshal(data, &k)
+	}
+	return k
+}
+
+func tagged(tags []string, id string) bool {
+	if len(tags) == 0 {
+		return true
+	}
+	for _, t := range tags {
+		if t == id {
+			return true
+		}
+	}
+	return false
+}
+
+func cmdCheck(args []string) int {
+	fs := flag.NewFlagSet("check", flag.ExitOnError)
+	tier := fs.String("tier", "", "quick|thorough")
+	update := fs.Bool("update-ledger", false, "rewrite the ledger from this run (maintenance only)")
+	verbose := fs.Bool("v", false, "list every obligation")
+	var id string
+	if len(args) > 0 && !strings.HasPrefix(args[0], "-") {
+		id = args[0]
+		args = args[1:]
+	}
+	fs.Parse(args)
+	if id == "" && fs.NArg() > 0 {
+		id = fs.Arg(0)
+	}
+	if *tier == "" {
+		*tier = os.Getenv("VERIF_TIER")
+	}
+	if *tier == "" {
+		*tier = "quick"
+	}
+	seed, _ := strconv.Atoi(os.Getenv("VERIF_SEED"))
+	t0 := time.Now()
+	props, err := loadProps()
+	if err != nil {
+		fmt.Fprintln(os.Stderr, "props.json:", err)
+		return 2
+	}
+	cfg := props[id]
+	if cfg == nil {
+		fmt.Fprintln(os.Stderr, "unknown property", id)
+		return 2
+	}
+	if cfg.Exec != "" {
+		return runExecCheck(id, cfg, *tier, seed, t0)
+	}
+	timeout := 12
+	if *tier == "thorough" {
+		timeout = 60
+	}
+	g, err := LoadGen(repoDir, verifDir, cfg.Patterns, nil)
+	if err != nil {
+		fmt.Printf("UNDECIDED property=%s cannot load /repo with -tags verif: %v\n", id, err)
+		writeEvidence(id, *tier, seed, t0, nil, cfg, nil, 0, []string{"load failure: " + err.Error()}, 0)
+		return 2
+	}
+	g.tier = *tier
+	var fts []*FT
+	var undecided []string
+	files := map[string]bool{}
+	usedLemmas := map[string]bool{}
+	for _, k := range cfg.Funcs {
+		key := fullKey(k)
+		fn := g.FindFunc(key)
+		c := g.db.Contracts[key]
+		if fn == nil {
+			undecided = append(undecided, "contract-target-missing "+k)
+			continue
+		}
+		ft := g.TranslateFunction(fn, c)
+		fts = append(fts, ft)
+		if c != nil {
+			files[c.File] = true
+			for _, u := range c.Uses {
+				usedLemmas[u] = true
+			}
+		}
+	}
+	// lemmas visible to these functions
+	only := map[string]bool{}
+	for _, ax := range g.db.Axioms {
+		if ax.Lemma && (files[ax.File] || usedLemmas[ax.Name]) && tagged(ax.Tags, id) {
+			only[ax.Name] = true
+		}
+	}
+	if len(only) > 0 {
+		fts = append(fts, g.LemmaFT(only)...)
+	}
+	for _, ft := range fts {
+		for _, u := range ft.unsupp {
+			undecided = append(undecided, "unsupported in "+shortKey(ft.name)+": "+u)
+		}
+	}
+	dir, _ := os.MkdirTemp("", "pvc-"+id)
+	defer os.RemoveAll(dir)
+	filter := func(o *Obl) bool { return tagged(o.Tags, id) }
+	res := runObligations(fts, dir, timeout, filter, 5)
+	// vacuity covers
+	vac := runCovers(fts, dir)
+	ledger := loadLedger(id)
+	known := loadKnown()
+	knownOpen := map[string]KnownFinding{}
+	for _, k := range known {
+		if k.Property == id && k.Status == "open" {
+			knownOpen[k.Obligation] = k
+		}
+	}
+	var reports []oblReport
+	discharged := 0
+	bySolver := map[string]int{}
+	solverSecs := 0.0
+	violations := 0
+	var lines []string
+	names := []string{}
+	unsuppFn := map[string]bool{}
+	for _, ft := range fts {
+		if len(ft.unsupp) > 0 {
+			unsuppFn[ft.name] = true
+		}
+	}
+	seen := map[string]bool{}
+	for _, r := range res {
+		name := shortKey(r.o.Name)
+		seen[name] = true
+		rep := oblReport{Name: name, Kind: r.o.Kind, Status: r.res.Status, Solver: r.res.Solver, Secs: r.res.Secs, Size: r.res.Size, Src: r.o.Src, Pos: strings.TrimPrefix(r.o.Pos, repoDir+"/")}
+		reports = append(reports, rep)
+		solverSecs += r.res.Secs
+		if r.res.Status == "unsat" && !unsuppFn[r.ft.name] {
+			discharged++
+			bySolver[r.res.Solver]++
+			names = append(names, name)
+			continue
+		}
+		if kf, ok := knownOpen[name]; ok {
+			lines = append(lines, fmt.Sprintf("KNOWN-FINDING: property=%s %s (%s)", id, kf.What, name))
+			continue
+		}
+		if unsuppFn[r.ft.name] {
+			undecided = append(undecided, "obligation "+name+" (function uses constructs outside the verified subset)")
+			continue
+		}
+		if ledger[name] || *update {
+			path := writeReplay(id, name, r)
+			suffix := " no-failing-input-found"
+			if ok, rp := tryReplay(g, id, r, path); ok {
+				suffix = ""
+				path = rp
+			}
+			violations++
+			lines = append(lines, fmt.Sprintf("VIOLATION property=%s replay=%s obligation=%s%s", id, path, name, suffix))
+		} else {
+			undecided = append(undecided, "obligation "+name+" ("+r.res.Status+"; not in the ledger of the reference tree)")
+		}
+	}
+	// ledger obligations that disappeared
+	var missing []string
+	for n := range ledger {
+		if !seen[n] {
+			missing = append(missing, n)
+		}
+	}
+	sort.Strings(missing)
+	for _, m := range missing {
+		undecided = append(undecided, "ledger obligation no longer generated: "+m)
+	}
+	for _, v := range vac {
+		lines = append(lines, "VACUOUS "+v)
+	}
+	if *verbose {
+		for _, r := range reports {
+			fmt.Printf("%-6s %s %s %.2fs\n", r.Status, r.Name, r.Solver, r.Secs)
+		}
+	}
+	for _, u := range undecided {
+		fmt.Println("UNDECIDED property=" + id + " " + u)
+	}
+	for _, l := range lines {
+		fmt.Println(l)
+	}
+	if *update && violations == 0 {
+		sort.Strings(names)
+		data, _ := json.MarshalIndent(names, "", " ")
+		os.MkdirAll(filepath.Join(verifDir, "ledger"), 0o755)
+		os.WriteFile(filepath.Join(verifDir, "ledger", id+".json"), append(data, '\n'), 0o644)
+	}
+	writeEvidence(id, *tier, seed, t0, reports, cfg, fts, discharged, undecided, violations)
+	fmt.Printf("property=%s tier=%s obligations=%d discharged=%d undecided=%d violations=%d wall=%.1fs\n", id, *tier, len(reports), discharged, len(undecided), violations, time.Since(t0).Seconds())
+	_ = bySolver
+	_ = solverSecs
+	if len(vac) > 0 {
+		return 2
+	}
+	if violations > 0 {
+		return 1
+	}
+	return 0
+}
+
+// runCovers: for every function, the entry assumptions (requires + axioms) must be satisfiable:
+// a query asking to prove "false" at entry must not be answered unsat.
+func runCovers(fts []*FT, dir string) []string {
+	var bad []string
+	for _, ft := range fts {
+		if ft.fn == nil || ft.c == nil || len(ft.c.Requires) == 0 {
+			continue
+		}
+		// entry facts: everything before the first obligation
+		n := len(ft.facts)
+		if len(ft.obls) > 0 {
+			n = ft.obls[0].NFacts
+		}
+		o := &Obl{Name: ft.name + "#cover", Kind: "cover", NFacts: n, Guard: "true", Goal: "false"}
+		q := ft.buildQueryOpt(o, ft.axiomTerms(ft.axUpTo), false)
+		r := Solve(q, dir, o.Name, 2, false)
+		if os.Getenv("PVC_KEEPCOVER") != "" {
+			os.WriteFile("/tmp/cover_"+mangle(shortKey(ft.name))+".smt2", []byte(q), 0o644)
+		}
+		if r.Status == "unsat" {
+			bad = append(bad, "precondition of "+shortKey(ft.name)+" is contradictory (proved false at entry)")
+		}
+	}
+	return bad
+}
+
+func writeReplay(id, name string, r oblResult) string {
+	dir := filepath.Join(verifDir, "replays")
+	os.MkdirAll(dir, 0o755)
+	path := filepath.Join(dir, id+"_"+fmt.Sprintf("%08x", hashStr(name))+".txt")
+	var b strings.Builder
+	fmt.Fprintf(&b, "property: %s\nfailed obligation: %s\nkind: %s\nclause: %s\nsource position: %s\nsolver verdicts: %v\n", id, name, r.o.Kind, r.o.Src, r.o.Pos, r.res.All)
+	fmt.Fprintf(&b, "meaning: this obligation was discharged on the reference tree (ledger) and is not provable on the current tree.\n")
+	fmt.Fprintf(&b, "solver output:\n%s\n", trunc(r.res.Output, 4000))
+	os.WriteFile(path, []byte(b.String()), 0o644)
+	return path
+}
+
+// tryReplay is the hook for model-based counterexample replay (per-kind concretisers); see replay.go.
+var tryReplay = func(g *Gen, id string, r oblResult, path string) (bool, string) { return false, path }
+
+func writeEvidence(id, tier string, seed int, t0 time.Time, reports []oblReport, cfg *PropCfg, fts []*FT, discharged int, undecided []string, violations int) {
+	assumed := map[string]bool{}
+	inlined := map[string]bool{}
+	modular := map[string]bool{}
+	havoced := map[string]bool{}
+	axioms := map[string]bool{}
+	var funcs []string
+	for _, ft := range fts {
+		funcs = append(funcs, shortKey(ft.name))
+		for k := range ft.assumed {
+			assumed[shortKey(k)] = true
+		}
+		for k := range ft.inlined {
+			inlined[shortKey(k)] = true
+		}
+		for k := range ft.modular {
+			modular[shortKey(k)] = true
+		}
+		for k := range ft.havoced {
+			havoced[shortKey(k)] = true
+		}
+		for k := range ft.axUsed {
+			axioms[k] = true
+		}
+	}
+	bySolver := map[string]int{}
+	secs := 0.0
+	for _, r := range reports {
+		if r.Status == "unsat" {
+			bySolver[r.Solver]++
+		}
+		secs += r.Secs
+	}
+	var samples []oblReport
+	for i, r := range reports {
+		if i%((len(reports)/6)+1) == 0 {
+			samples = append(samples, r)
+		}
+	}
+	assumptions := append([]string{}, cfg.Assumptions...)
+	for _, k := range sortedStrs(assumed) {
+		assumptions = append(assumptions, "assumed external contract: "+k)
+	}
+	for _, k := range sortedStrs(havoced) {
+		assumptions = append(assumptions, "external call without contract, assumed total and effect-free: "+k)
+	}
+	var axs []string
+	for _, k := range sortedStrs(axioms) {
+		axs = append(axs, k)
+	}
+	if len(axs) > 0 {
+		assumptions = append(assumptions, "axioms/definitions/lemmas used in queries (lemmas are proved in this run when listed as obligations): "+strings.Join(axs, ", "))
+	}
+	assumptions = append(assumptions, "int arithmetic is mathematical (A-int); unsigned arithmetic is exact modulo 2^k; termination not proved")
+	ev := map[string]interface{}{
+		"property_id": id, "tier": tier, "seed": seed, "level": "proof",
+		"coverage": map[string]interface{}{
+			"obligations": len(reports), "discharged": discharged,
+			"checker_cmd":  "/verif/bin/pvc check " + id + " --tier " + tier,
+			"trusted_base": cfg.Trusted,
+			"functions_under_contract": funcs,
+			"callees_used_by_contract": sortedStrs(modular),
+			"callees_inlined":          sortedStrs(inlined),
+			"discharged_by_backend":    bySolver,
+			"solver_seconds":           secs,
+			"undecided":                undecided,
+			"samples":                  samples,
+			"explanation":              cfg.Note,
+		},
+		"assumptions": assumptions,
+		"wall_s":      time.Since(t0).Seconds(),
+		"violations":  violations,
+	}
+	if len(reports) == 0 {
+		ev["coverage"].(map[string]interface{})["evaluations"] = 0
+	}
+	os.MkdirAll(filepath.Join(verifDir, "evidence"), 0o755)
+	data, _ := json.MarshalIndent(ev, "", " ")
+	os.WriteFile(filepath.Join(verifDir, "evidence", id+".json"), data, 0o644)
+}
+
+func runExecCheck(id string, cfg *PropCfg, tier string, seed int, t0 time.Time) int {
+	fmt.Fprintln(os.Stderr, "no executable check registered for", id)
+	return 2
+}
+
+func cmdReplay(args []string) int {
+	if len(args) == 0 {
+		fmt.Fprintln(os.Stderr, "usage: pvc replay <path>")
+		return 2
+	}
+	data, err := os.ReadFile(args[0])
+	if err != nil {
+		fmt.Fprintln(os.Stderr, err)
+		return 2
+	}
+	fmt.Print(string(data))
+	return 0
+}
+
 func cmdSelftest(args []string) int { return 2 }
